@@ -24,20 +24,24 @@ fn e_dict_remove_preserves_order() {
     assert!(d.len() == 2 && !d.contains_key(&k[which]));
     let (i, j) = if which == 0 { (1, 2) } else if which == 1 { (0, 2) } else { (0, 1) };
     // order and values of the others
-    let mut it = d.iter();
-    let a = it.next().unwrap();
-    let b = it.next().unwrap();
-    assert!(it.next().is_none());
-    assert!(*a.0 == k[i] && *a.1 == v[i] && *b.0 == k[j] && *b.1 == v[j], "removal changed the order or the values of other entries");
+    {
+        let mut it = d.iter();
+        let a = it.next().unwrap();
+        let b = it.next().unwrap();
+        assert!(it.next().is_none());
+        assert!(*a.0 == k[i] && *a.1 == v[i] && *b.0 == k[j] && *b.1 == v[j], "removal changed the order or the values of other entries");
+    }
     // index invariant: lookups still hit the right entries
     assert!(d.get(&k[i]) == Some(&v[i]) && d.get(&k[j]) == Some(&v[j]), "index map out of sync with the entries after a removal");
     // rename keeps position and value
     let nk: u8 = kani::any();
     kani::assume(nk != k[0] && nk != k[1] && nk != k[2]);
     assert!(d.update_key(&k[i], nk).is_ok());
-    let mut it = d.iter();
-    let a = it.next().unwrap();
-    assert!(*a.0 == nk && *a.1 == v[i], "rename changed the position or the value");
+    {
+        let mut it = d.iter();
+        let a = it.next().unwrap();
+        assert!(*a.0 == nk && *a.1 == v[i], "rename changed the position or the value");
+    }
     assert!(d.get(&nk) == Some(&v[i]) && d.get(&k[i]).is_none() && d.get(&k[j]) == Some(&v[j]));
     // renaming onto an existing key, or a missing key, is an error and changes nothing
     assert!(d.update_key(&nk, k[j]).is_err());
